@@ -114,9 +114,11 @@ package keymap
 //@   ensures [returns-active] len(result2) > 0 ==> result0 == m.active
 //@   ensures [no-keys-no-command] len(result2) == 0 ==> len(result0.Action) == 0 && !result0.Macro && !result1
 //@   ensures [reads-something] typed ==> (len(result2) == 0 <==> len(u) == 0)
+//@   ensures [shorter-were-prefixes] typed ==> all(j, 1, len(result2), bprefix(binds, result2[:j]))
 //@   loop 1 invariant m != nil && m.keys != nil && matched == read && (typed ==> len(m.keys.macroKeys) == 0 && len(read) <= len(u) && read == u[:len(read)] && m.keys.buf == u[len(read):])
 //@   loop 1 invariant typed ==> (len(read) == 0 && !prefix && m.prefixed == old(m.prefixed) && kept == 0) || (len(read) > 0 && prefix && bprefix(binds, read) && 0 <= kept && kept <= len(read) && ((m.prefixed == old(m.prefixed) && kept == 0) || (kept >= 1 && anykey(s, binds, conv(s) == read[:kept] && m.prefixed == binds[s]))))
 //@   loop 1 invariant m.active == old(m.active) && 0 <= kept && kept <= len(matched)
+//@   loop 1 invariant typed ==> all(j, 1, len(read) + 1, bprefix(binds, read[:j]))
 //@   loop 1 decreases len(m.keys.buf) + len(m.keys.macroKeys)
 
 //@ func (*Engine).IsEmacs
@@ -142,7 +144,8 @@ package keymap
 
 // kmdisp: the dispatcher state MatchMain / MatchLocal start from in the kernel statement: typed keys only
 // (no macro keys pending), no binding kept from an earlier prefix, plain (unrestricted) bind tables
-//@ pred kmdisp(eng *Engine) = eng != nil && eng.keys != nil && eng.config != nil && eng.config.Binds != nil && eng.commands != nil && len(eng.keys.macroKeys) == 0 && len(eng.prefixed.Action) == 0 && !eng.prefixed.Macro && eng.local != "isearch" && !eng.nonIncSearch
+//@ pred isbytes(s []byte) = all(k, 0, len(s), 0 <= s[k] && s[k] <= 255)
+//@ pred kmdisp(eng *Engine) = isbytes(eng.keys.buf) && eng != nil && eng.keys != nil && eng.config != nil && eng.config.Binds != nil && eng.commands != nil && len(eng.keys.macroKeys) == 0 && len(eng.prefixed.Action) == 0 && !eng.prefixed.Macro && eng.local != "isearch" && !eng.nonIncSearch
 //@ spec maintbl(eng *Engine) map[string]inputrc.Bind = mget(eng.config.Binds, eng.main)
 
 //@ func MatchMain
@@ -155,3 +158,16 @@ package keymap
 //@   ensures [runs-bound-sequence] !result2 && len(result0.Action) > 0 ==> anykey(s, maintbl(eng), conv(s) == u[:len(u) - len(eng.keys.buf)] && result0 == mget(maintbl(eng), s))
 //@   ensures [no-keys-no-command] len(u) == 0 ==> len(result0.Action) == 0 && !result2
 //@   ensures [caller-keys] !result2 && len(result0.Action) > 0 ==> eng.keys.matched == runes(u[:len(u) - len(eng.keys.buf)])
+
+//@ spec localtbl(eng *Engine) map[string]inputrc.Bind = mget(eng.config.Binds, eng.local)
+
+//@ func MatchLocal
+//@   props C03 C05
+//@   terminates
+//@   requires kmdisp(eng) && len(eng.keys.matched) == 0 && (len(eng.keys.buf) == 0 || eng.keys.buf[0] != 27)
+//@   let u = eng.keys.buf
+//@   ensures [prefix-keeps-keys] result2 ==> eng.keys.buf == u && len(u) > 0 && bprefix(localtbl(eng), u)
+//@   ensures [stack-shrinks] len(eng.keys.buf) <= len(u) && eng.keys.buf == u[len(u) - len(eng.keys.buf):]
+//@   ensures [runs-bound-sequence] !result2 && len(result0.Action) > 0 ==> anykey(s, localtbl(eng), conv(s) == u[:len(u) - len(eng.keys.buf)] && result0 == mget(localtbl(eng), s))
+//@   ensures [unmatched-key-left-for-main] len(u) > 0 && !bprefix(localtbl(eng), u[:1]) && !bexact(localtbl(eng), u[:1]) && len(eng.local) > 0 ==> eng.keys.buf == u && len(result0.Action) == 0
+//@   ensures [no-local-keymap] len(eng.local) == 0 ==> eng.keys.buf == u && len(result0.Action) == 0 && !result2
